@@ -63,6 +63,12 @@ func (f *Frame) execCall(instr ssa.Instruction, c *ssa.CallCommon, st *State) *V
 		return mkRes(f.inline(instr, callee, args, fv.Fn.Bind, st))
 	}
 	name := ShortName(callee)
+	if !isRepoFunc(callee) && callee.Signature.Recv() != nil && len(args) > 0 && args[0].LV == nil && args[0].Fn == nil && args[0].Sl == nil {
+		if _, isPtr := callee.Signature.Recv().Type().Underlying().(*types.Pointer); isPtr && args[0].T.Sort == SInt {
+			// library methods dereference their receiver
+			f.nopanic(st, "nil-recv", instr.Pos(), not(eq(args[0].T, intLit(0))), "receiver of "+name+" is not nil")
+		}
+	}
 	if callee.Name() == "init" && callee.Synthetic != "" && callee.Pkg != nil && f.fn.Pkg != callee.Pkg {
 		u.note("package initialiser of an imported package (" + callee.Pkg.Pkg.Path() + ") already ran and does not touch this package's variables")
 		return nil
